@@ -419,7 +419,7 @@ def paraJustified : List (Item Rat) := [bx 3, gl 1 (1/2) (1/3), bx 3, gl 1 (1/2)
 /-- non-vacuity of `optimal_over_breakings`: the paragraph is well-formed (`WF`) ... -/
 example : WF Pq paraJustified 8 := by
   refine ⟨by decide +kernel, by decide +kernel, by decide +kernel, ?_, ?_, by decide +kernel, ?_,
-    snap_of_snapFreeB Pq paraJustified 8 (by decide +kernel)⟩
+    by decide +kernel, snap_of_snapFreeB Pq paraJustified 8 (by decide +kernel)⟩
   · intro it hit
     simp only [paraJustified, nl, List.cons_append, List.nil_append, List.mem_cons, List.not_mem_nil, or_false] at hit
     rcases hit with rfl | rfl | rfl | rfl | rfl | rfl | rfl <;> decide +kernel
@@ -457,7 +457,7 @@ def paraRelax : List (Item Rat) := [bx 3, gl 1 1 0, bx 3, pn 0 (-1000) false]
 breaking is feasible at `t = 3` (and at +∞) but not at `Tolerance = 2`, and the run indeed relaxes -/
 example : WF Pq paraRelax 10 := by
   refine ⟨by decide +kernel, by decide +kernel, by decide +kernel, ?_, ?_, by decide +kernel, ?_,
-    snap_of_snapFreeB Pq paraRelax 10 (by decide +kernel)⟩
+    by decide +kernel, snap_of_snapFreeB Pq paraRelax 10 (by decide +kernel)⟩
   · intro it hit
     simp only [paraRelax, List.mem_cons, List.not_mem_nil, or_false] at hit
     rcases hit with rfl | rfl | rfl | rfl <;> decide +kernel
@@ -476,6 +476,21 @@ example : (seqCost Pq paraRelax 10 (some 3) none 1 0 [3]).isSome = true ∧
     (seqCost Pq paraRelax 10 none none 1 0 [3]).isSome = true ∧
     (seqCost Pq paraRelax 10 (some Pq.tolerance) none 1 0 [3]).isSome = false ∧
     obs (linebreak Pq paraRelax 10 0) = some ([3], [7], true) := by
+  refine ⟨by decide +kernel, by decide +kernel, by decide +kernel, by decide +kernel⟩
+
+/-- a box 1.1e-9 wider than the line, then glue that can shrink by 1000 -/
+def paraBand : List (Item Rat) := [bx (10 + 11 / 10000000000), gl 0 0 0, bx 0, gl 1000 0 1000, pn 0 (-1000) false]
+
+/-- Why the hypothesis `snap` of `WF` cannot be dropped (it can be for `eps = 0`): inside the guard band
+the code's feasibility test is snapped (`|r+1| ≤ 1e-10 ⇒ r := −1`) while the ratio-based deactivation is
+strict. Here the start node is deactivated at the first glue (the box is wider than the line by more than
+the guard), yet the single line to the final break has ratio −1 − 1.1e-12, which the guard accepts: the
+breaking [4] is feasible by the code's own measure (`seqCost`), but overflow is reported. The paragraph
+violates only `snap` (`snapFreeB = false`); the unguarded specification `best` finds nothing. -/
+theorem guard_band_witness :
+    (seqCost Pq paraBand 10 (some Pq.tolerance) none 1 0 [4]).isSome = true ∧
+    obs (linebreak Pq paraBand 10 0) = some ([1, 4], [100000000011 / 10000000000, 1000], false) ∧
+    snapFreeB Pq paraBand 10 = false ∧ best Pq paraBand 10 = none := by
   refine ⟨by decide +kernel, by decide +kernel, by decide +kernel, by decide +kernel⟩
 
 end witnesses
